@@ -278,7 +278,7 @@ def build(repo):
     requires self.wf(),
     ensures
         // what is returned is block number n ...
-        r.is_some() ==> r.unwrap().num() == n && self.readable(n.0 as int),
+        r.is_some() ==> r.unwrap().num() == n && self.readable(n.0 as int) && n.0 < u64::MAX,
         // ... and every number from the first cached block up to the end of the queue is returned
         (self.cache@.len() > 0 && self.cache@[0].num().0 <= n.0 && n.0 < self.queued.nxt()) ==> r.is_some(),
         self.readable(n.0 as int) ==> r.is_some(),
@@ -300,6 +300,52 @@ pub fn bn_max(a: BlockNumber, b: BlockNumber) -> (r: BlockNumber) ensures r.0 ==
             && block_store.readable(b.num().0 as int),
         // and it is handed over as soon as it is available
         block_store.readable(if queue_next.0 >= block_store.persisted.nxt() { queue_next.0 as int } else { block_store.persisted.nxt() }) ==> r.is_some(),
+""")
+    # one iteration of that loop: wait for the picked block, remember what comes next, hand the block to durable storage (R-block)
+    U.raw("""
+#[verifier::external_body] pub struct BlockStoreReceiver { _p: u8 }              // sync::watch::Receiver<BlockStore>
+pub uninterp spec fn observed_store(bs: BlockStore) -> bool;                     // a store content this subscription saw (A4)
+pub uninterp spec fn submitted(n: BlockNumber) -> bool;                          // block n was handed to EngineInterface::queue_next_block
+// sync::wait_for_some(ctx, recv, f): Ok(v) only if f returned Some(v) on a value the channel held (A4); every writer preserves wf (proved)
+#[verifier::external_body]
+pub async fn wait_for_some_block<F: Fn(&BlockStore) -> Option<Block>>(ctx: &Ctx, recv: &mut BlockStoreReceiver, f: F) -> (r: Result<Block, CtxError>)
+    requires forall|bs: &BlockStore| bs.wf() ==> #[trigger] f.requires((bs,)),
+    ensures r matches Ok(b) ==> exists|bs: &BlockStore| bs.wf() && observed_store(*bs) && #[trigger] f.ensures((bs,), Some(b)),
+{ unimplemented!() }
+pub open spec fn follows(n: BlockNumber, prev_next: BlockNumber, bs: &BlockStore) -> bool {
+    n.0 == (if prev_next.0 >= bs.persisted.nxt() { prev_next.0 as int } else { bs.persisted.nxt() })
+}
+impl EngineIf {
+    // "hands blocks to durable storage in increasing order without gaps - each submitted block directly follows the previously submitted
+    //  one [prev_next = its number + 1] or the current durable head"
+    #[verifier::external_body]
+    pub async fn queue_next_block(&self, ctx: &Ctx, block: Block, Ghost(prev_next): Ghost<BlockNumber>) -> (r: Result<(), CtxError>)
+        requires exists|bs: &BlockStore| bs.wf() && observed_store(*bs) && #[trigger] follows(block.num(), prev_next, bs),
+        ensures r.is_ok() ==> submitted(block.num()),
+    { unimplemented!() }
+}
+pub struct RunnerInner { pub interface: EngineIf }                              // R-type: the member of EngineManager used by this task
+""", label="prelude persist iteration")
+    U.lift_closure(F_MGR, "impl EngineManagerRunner :: fn run", "async {\n let block = sync::wait_for_some(", "persist_iteration",
+                   "(this: &RunnerInner, ctx: &Ctx, block_store: &mut BlockStoreReceiver, queue_next: &mut BlockNumber) -> (r: Result<(), CtxError>)",
+                   block=True, fn_kw="async fn", brace_at=1,
+                   rules_=("R-log", "R-errmsg", "R-underscore", "R-ctorfn"),
+                   proof_at_start="let verif_qn: BlockNumber = *queue_next;   /* R-let: the captured value */",
+                   subs=[("self.0.", "this.", None),
+                         (".instrument(tracing::trace_span!($X))", "   /* R-log */", None),
+                         ("let t = metrics::$X;", "", 1), ("t.observe();", "", 1),
+                         ("queue_next.max($A)", "bn_max(verif_qn, $A)   /* R-std */"),
+                         ("sync::wait_for_some(ctx, block_store, |block_store| { $B })",
+                          "wait_for_some_block(ctx, block_store, |block_store: &BlockStore| -> (verif_r: Option<Block>) requires block_store.wf() "
+                          "ensures verif_r matches Some(b) ==> follows(b.num(), verif_qn, block_store) && b.num().0 < u64::MAX { $B })   /* W-closure */"),
+                         ("queue_next = ", "*queue_next = "),
+                         (".queue_next_block(ctx, block)", ".queue_next_block(ctx, block, Ghost(verif_qn))   /* W-ghost */"),
+                         ("ctx::Ok(())", "Ok(())")],
+                   spec="""
+    ensures
+        // after a successful iteration `queue_next` is the number right after the block that was just submitted, so the next
+        // submission (precondition of queue_next_block) directly follows it or the durable head
+        r.is_ok() ==> exists|b: BlockNumber| #[trigger] submitted(b) && final(queue_next).0 == b.0 + 1,
 """)
     U.fn(F_BS, "impl BlockStore :: fn truncate_cache", wrap="impl BlockStore",
          loops={0: dict(prefix="while self.cache.len() > Self::CACHE_CAPACITY", inv="""
